@@ -84,7 +84,10 @@ def run(spec, module, cfg, workers=16, timeout=600, simulate=None, depth=None,
     try:
         stage(spec, wd, extra_files)
         meta = os.path.join(wd, 'meta')
-        cmd  = ['java', '-XX:+UseParallelGC', '-Xmx%s' % max_heap]
+        # TLC leaves an (empty) tlc-* directory in java.io.tmpdir per run: keep it inside our scratch
+        jtmp = os.path.join(wd, 'jtmp')
+        os.makedirs(jtmp, exist_ok=True)
+        cmd  = ['java', '-XX:+UseParallelGC', '-Xmx%s' % max_heap, '-Djava.io.tmpdir=%s' % jtmp]
         if deque:
             cmd.append('-Dtlc2.tool.queue.IStateQueue=StateDeque')
         cmd += ['-cp', JAR + ':' + os.path.dirname(JAR) + '/CommunityModules-deps.jar',
